@@ -77,6 +77,21 @@ def check_config(cfg, w, rep):
             rep.violation("c:%s" % k, "a key could still be found after a successful removal — " + v.msg, loc=v.loc, config=cfg,
                           rule="c/" + v.rule, witness=v.witness)
 
+    # ---- (a2) every successful keyed commit appends its record ----
+    check_commit_always_inserts(cfg, w, rep, "a2")
+
+    # ---- (b0) the record stream the lookups fold over is every valid record of the bucket, in file order (the reader clauses
+    #      of C06, re-checked: a reader that drops, reorders or stops early changes which record is "the most recent") ----
+    from . import c06
+    sub = Report("C06")
+    for p_ in R.bucket_readers:
+        c06.check_reader(cfg, w, sub, prog.fns[p_])
+    for (c_, rule, k, desc, ok) in sub.obligations:
+        if ok:
+            rep.ob(cfg, "b0/" + rule, k, desc)
+    for k, v in sub.violations.items():
+        rep.violation("b0:%s" % k, "a lookup could miss or mis-order records — " + v.msg, loc=v.loc, config=cfg, rule="b0/" + (v.rule or ""), witness=v.witness)
+
     # ---- (b) decision table of every lookup ----
     finds = sorted(find_fns(w))
     rep.floor("lookup_fns", len(finds), 2 if is_async else 1, cfg)
